@@ -57,7 +57,8 @@ def determine_freq_gap_interval(pixel_dist: Counter, gap_threshold: int) -> list
     curr_interval = new_gap_pixel_interval(common_pixels[0])
     for curr_index, curr_pixel in enumerate(common_pixels[:-1]):
         next_pixel = common_pixels[curr_index + 1]
-        if next_pixel - curr_pixel < gap_threshold:
+        # adjacent pixels are never a gap, whatever the threshold
+        if next_pixel - curr_pixel < max(gap_threshold, 2):
             curr_interval["end"] = next_pixel
         else:
             gap_pixel_intervals += [curr_interval]
